@@ -127,6 +127,14 @@ def api_events(seed):
     ev["dls_tensor"] = lambda m, f: deep_lift_shap(m, X, references=R, additional_nonlinear_ops=ops(f), device="cpu", batch_size=4, target=1)
     ev["dls_hypothetical_args"] = lambda m, f: deep_lift_shap(m, X, args=(A1,), references=f.references, random_state=1, hypothetical=True,
                                                               additional_nonlinear_ops=ops(f), **dls)
+    # a call WITHOUT custom rules and one with a custom rule that changes the result (legal use of additional_nonlinear_ops):
+    # whatever one call configures must not leak into the next call
+    def scaled_rule(module, grad_input, grad_output):
+        from tangermeme.deep_lift_shap import _nonlinear
+        return (_nonlinear(module, grad_input, grad_output)[0] * 2.0,)
+    ev["dls_plain"] = lambda m, f: deep_lift_shap(m, X, references=R, device="cpu", batch_size=4)
+    ev["dls_custom_rule"] = lambda m, f: deep_lift_shap(m, X, references=R, device="cpu", batch_size=4, additional_nonlinear_ops={torch.nn.ReLU: scaled_rule},
+                                                        warning_threshold=1e9)
     ev["ism"] = lambda m, f: saturation_mutagenesis(m, X[:1], batch_size=7, device="cpu")
     ev["marginalize"] = lambda m, f: marginalize(m, X, "AC", device="cpu")
     ev["marginalize_dls"] = lambda m, f: marginalize(m, X[:2], "AC", func=deep_lift_shap, references=f.references, random_state=0,
